@@ -255,10 +255,12 @@ class HamiltonianContext(Context):
     def revert_state(self) -> None:
         """Revert the context to the last saved state, restoring the last momenta and
         kinetic energy."""
+        # the other contexts first: an exchange context puts deleted atoms back (or removes
+        # inserted ones), and only then do the remembered momenta fit the atoms again
+        super().revert_state()
+
         self.atoms.set_array("momenta", self.last_momenta.copy(), float, (3,))
         self.last_kinetic_energy = self.atoms.get_kinetic_energy()  # type: ignore[ase]
-
-        super().revert_state()
 
     def to_dict(self) -> dict[str, Any]:
         """
